@@ -26,6 +26,7 @@ type vfsHandle struct {
 	path   string
 	pos    int
 	append bool
+	closed bool
 }
 
 const vfsNotExist = "file does not exist"
@@ -275,6 +276,42 @@ func registerVFS(e *Engine) {
 		delete(x.vfs, p)
 		return nilIface
 	})
+	osf("os.RemoveAll", func(x *Exec, a []Value) Value {
+		p := filepath.Clean(cstr(x, a[0]))
+		x.vfsLog("os.RemoveAll(" + p + ")")
+		for k := range x.vfs {
+			if k == p || strings.HasPrefix(k, p+"/") {
+				delete(x.vfs, k)
+			}
+		}
+		return nilIface
+	})
+	osf("os.Rename", func(x *Exec, a []Value) Value {
+		from, to := filepath.Clean(cstr(x, a[0])), filepath.Clean(cstr(x, a[1]))
+		x.vfsLog("os.Rename(" + from + "," + to + ")")
+		n, ok := x.vfs[from]
+		if !ok {
+			return notExist(x)
+		}
+		if !x.vfsParentOK(to) {
+			return notExist(x)
+		}
+		moved := map[string]*vfsNode{to: n}
+		for k, v := range x.vfs {
+			if strings.HasPrefix(k, from+"/") {
+				moved[to+k[len(from):]] = v
+			}
+		}
+		for k := range x.vfs {
+			if k == from || strings.HasPrefix(k, from+"/") {
+				delete(x.vfs, k)
+			}
+		}
+		for k, v := range moved {
+			x.vfs[k] = v
+		}
+		return nilIface
+	})
 	open := func(x *Exec, name string, flag int64) Value {
 		const oCreate, oTrunc, oAppend, oExcl = 0x40, 0x200, 0x400, 0x80
 		x.vfsLog("os.OpenFile(" + filepath.Clean(name) + ")")
@@ -298,6 +335,18 @@ func registerVFS(e *Engine) {
 	osf("os.OpenFile", func(x *Exec, a []Value) Value { return open(x, cstr(x, a[0]), int64(cint(x, a[1]))) })
 	osf("os.Create", func(x *Exec, a []Value) Value { return open(x, cstr(x, a[0]), 0x2|0x40|0x200) })
 	osf("os.Open", func(x *Exec, a []Value) Value { return open(x, cstr(x, a[0]), 0) })
+	osf("os.CreateTemp", func(x *Exec, a []Value) Value {
+		dir, pat := cstr(x, a[0]), cstr(x, a[1])
+		if dir == "" {
+			dir = "/tmp"
+		}
+		if _, n := x.vfsResolve(dir, true); n == nil {
+			x.vfs[filepath.Clean(dir)] = &vfsNode{kind: 'd'}
+		}
+		x.vfsTemp++
+		name := strings.Replace(pat, "*", "", 1) + "v" + strconv.Itoa(x.vfsTemp)
+		return open(x, filepath.Join(dir, name), 0x2|0x40|0x80)
+	})
 	handle := func(x *Exec, v Value) *vfsHandle {
 		nv, ok := x.deref(v.(*PtrVal)).Load().(*NativeVal)
 		if !ok {
@@ -305,8 +354,13 @@ func registerVFS(e *Engine) {
 		}
 		return nv.V.(*vfsHandle)
 	}
+	closedErr := func(x *Exec) Value { return x.errorValue("file already closed") }
+	osf("(*os.File).Name", func(x *Exec, a []Value) Value { return mkStr(handle(x, a[0]).path) })
 	wr := func(x *Exec, a []Value, data []*Term) Value {
 		h := handle(x, a[0])
+		if h.closed {
+			return TupleVal{mkBV(64, 0), closedErr(x)}
+		}
 		np, err := write(x, h.path, data, false, false, h.append, h.pos)
 		h.pos = np
 		if iv := err.(*IfaceVal); iv.T != nil {
@@ -328,7 +382,23 @@ func registerVFS(e *Engine) {
 			panic(unsupported("io.ReadAll not found"))
 		}
 		res := x.callFunction(ra, []Value{a[1]}, nil).(TupleVal)
-		np, err := write(x, h.path, nil, false, false, h.append, h.pos)
+		if h.closed {
+			return TupleVal{mkBV(64, 0), closedErr(x)}
+		}
+		// the content is kept when it is plain bytes (texts with opaque, formatted parts are not)
+		var data []*Term
+		if sl, ok := res[0].(*SliceVal); ok && !sl.Nil {
+			plain := true
+			for i := 0; i < sl.Len; i++ {
+				if _, isTerm := sl.At(i).(*Term); !isTerm {
+					plain = false
+				}
+			}
+			if plain {
+				data = bytesOf(sl)
+			}
+		}
+		np, err := write(x, h.path, data, false, false, h.append, h.pos)
 		h.pos = np
 		if iv := err.(*IfaceVal); iv.T != nil {
 			return TupleVal{mkBV(64, 0), err}
@@ -339,7 +409,39 @@ func registerVFS(e *Engine) {
 		}
 		return TupleVal{mkBV(64, uint64(n)), res[1]}
 	})
-	osf("(*os.File).Close", func(x *Exec, a []Value) Value { return nilIface })
+	// Read: the bytes of the file from the handle's position into the caller's buffer; io.EOF at the end
+	osf("(*os.File).Read", func(x *Exec, a []Value) Value {
+		h := handle(x, a[0])
+		if h.closed {
+			return TupleVal{mkBV(64, 0), closedErr(x)}
+		}
+		n, ok := x.vfs[h.path]
+		if !ok || n.kind != 'f' {
+			return TupleVal{mkBV(64, 0), notExist(x)}
+		}
+		buf := a[1].(*SliceVal)
+		if buf.Len == 0 {
+			return TupleVal{mkBV(64, 0), nilIface}
+		}
+		if h.pos >= len(n.data) {
+			return TupleVal{mkBV(64, 0), x.ioEOF()}
+		}
+		k := 0
+		for k < buf.Len && h.pos < len(n.data) {
+			buf.A.E[buf.Off+k] = n.data[h.pos]
+			k++
+			h.pos++
+		}
+		return TupleVal{mkBV(64, uint64(k)), nilIface}
+	})
+	osf("(*os.File).Close", func(x *Exec, a []Value) Value {
+		h := handle(x, a[0])
+		if h.closed {
+			return closedErr(x)
+		}
+		h.closed = true
+		return nilIface
+	})
 	osf("(*os.File).Sync", func(x *Exec, a []Value) Value { return nilIface })
 	// the FileInfo value returned by the model is a real *os.fileStat: its accessors may be interpreted
 	for _, n := range []string{"(*os.fileStat).Mode", "(*os.fileStat).IsDir", "(*os.fileStat).Name", "(*os.fileStat).Size"} {
